@@ -64,7 +64,7 @@ def interpolate_cff2_PrivateDict(topDict, interpolateFromDeltas):
             if (key in pd_blend_values) and isinstance(value, list):
                 delta = interpolateFromDeltas(vsindex, value[1:])
                 pd.rawDict[key] = otRound(value[0] + delta)
-            elif (key in pd_blend_lists) and isinstance(value[0], list):
+            elif (key in pd_blend_lists) and value and isinstance(value[0], list):
                 """If any argument in a BlueValues list is a blend list,
                 then they all are. The first value of each list is an
                 absolute value. The delta tuples are calculated from
